@@ -215,9 +215,14 @@ def lattice_part(ctx, tier, rng, M):
                 exp = r["per"][0] / r["per"][1] * u
                 ctx.inc("periods_compared")
                 if T is not None and abs(T - exp) > 1e-12 * exp:
-                    ctx.violate(f"period:wrong:fr={frs(fr)}{':float' if as_float else ''}",
-                                f"frequencies_to_period({freqs}) = {T!r}, documented 2pi/gcd = {exp!r} (TLC: {r['per'][0]}/{r['per'][1]} lattice units of 4pi/{N})",
-                                {"freqs": freqs})
+                    if any(100000 % q for (_, q) in fr):
+                        # documented rounding of non-integral frequencies to 5 decimals: such a frequency is not representable, the returned
+                        # period is that of the rounded frequencies (evidence only; the rule itself is still judged by its identities)
+                        ctx.inc("period_of_frequencies_beyond_5_decimals_differs")
+                    else:
+                        ctx.violate(f"period:wrong:fr={frs(fr)}{':float' if as_float else ''}",
+                                    f"frequencies_to_period({freqs}) = {T!r}, documented 2pi/gcd = {exp!r} (TLC: {r['per'][0]}/{r['per'][1]} lattice units of 4pi/{N})",
+                                    {"freqs": freqs})
             arr, exc, warns = call_rule(freqs, shifts, r["n"])
             ctx.inc("rule_calls")
             tag = f"{'user' if r['user'] else 'default'}:fr={frs(fr)}:n={r['n']}" + (f":sh={r['sh']}" if r["user"] else "") + (":float" if as_float else "")
@@ -377,16 +382,20 @@ def judge(ctx, info, err, where, exact):
                                 "max_identity_error": float(f"{err:.3g}"), "exact_phases": exact})
         return
     warned = "warned" if info["warns"] else "silent"
+    # one violation per (class, request without order / float variant): the first failing order is described
+    base_tag = info["tag"].replace(":float", "")
+    base_tag = ":".join(t for t in base_tag.split(":") if not t.startswith("n="))
     if info["singular_default"]:
-        key = f"default-shifts-singular:{warned}:{info['tag']}"
+        key = f"default-shifts-singular:{warned}:{base_tag}"
         why = "TLC proves (ring determinant = 0) that NO first-order rule with the documented default shifts exists for these frequencies; "
     elif info.get("numerically_singular"):
-        key = f"default-shifts-singular:{warned}:{info['tag']}"
+        key = f"default-shifts-singular:{warned}:{base_tag}"
         why = f"the sine matrix of the default shifts is numerically singular (cond {info['numerically_singular']:.3g}); "
     else:
-        key = f"identity-fails:{warned}:{info['tag']}"
+        key = f"identity-fails:{warned}:{base_tag}"
         why = ""
-    ctx.violate(key, f"{why}the returned rule violates sum_j c_j e^(i w s_j) = (i w)^n by {err:.3g} at {where} (tolerance {info['tol']:.3g}); "
+    ctx.inc("rules_violating_their_identities")
+    ctx.violate(key, f"{info['tag']}: {why}the returned rule violates sum_j c_j e^(i w s_j) = (i w)^n by {err:.3g} at {where} (tolerance {info['tol']:.3g}); "
                      f"warnings: {info['warns'] or 'none'}; rule = {np.round(info['arr'], 6).tolist()[:8]}", info["replay"])
 
 
@@ -505,10 +514,8 @@ def replay_case(rng, M, kind, user_det):
         gb = add_group([rng.choice(ROT1) for _ in range(rb)], 1)
         gb["fr"] = [(k, 1) for k in range(1, rb + 1)]
         groups = [ga, gb]
-    pw = [rng.randint(0, 3) for _ in range(n)]
-    if not any(pw):
-        pw[rng.randrange(n)] = rng.randint(1, 3)
-    return {"n": n, "ops": ops, "groups": groups, "pw": pw, "kind": kind, "M": M}
+    words = [list(w) for w in __import__("itertools").product(range(4), repeat=n) if any(w)]
+    return {"n": n, "ops": ops, "groups": groups, "pws": rng.sample(words, 3), "kind": kind, "M": M}
 
 
 def shifted_ops(case, deltas):
@@ -560,7 +567,7 @@ def replay_part(ctx, tier, rng, user_det):
         tcases, owner = [], []
         for ji, (case, orders, arr, rows, _) in enumerate(jobs):
             for row in rows:
-                tcases.append({"n": case["n"], "ops": shifted_ops(case, row), "meas": [{"t": "expval", "pw": case["pw"]}]})
+                tcases.append({"n": case["n"], "ops": shifted_ops(case, row), "meas": [{"t": "expval", "pw": w} for w in case["pws"]]})
                 owner.append(ji)
         vals, st = tapeeval.evaluate(PID, tcases, M, name=f"shifted{M}")
         stats["states"] += st["distinct"]
@@ -576,44 +583,46 @@ def replay_part(ctx, tier, rng, user_det):
         stats["transitions"] += st["generated"]
         fvals = [[] for _ in jobs]
         for ji, v in zip(owner, vals):
-            fvals[ji].append(v["meas"][0])
+            fvals[ji].append(v["meas"])
         ncorrupt = 0
         for ji, (case, orders, arr, rows, replay) in enumerate(jobs):
             stt = sts[[i for i, c in enumerate(uniq) if c is case][0]]
-            m = ("expval", case["pw"])
             gs = case["groups"]
-            if len(gs) == 1:
-                g_ = gs[0]
-                if orders == [1]:
-                    exp = sum(g_["mult"] * deriv.grad(m, stt, case["n"], k) for k in g_["pos"])
+            size = max(1.0, float(np.sum(np.abs(arr[:, 0]))))
+            ctx.inc("replay_exact_function_values", len(rows) * len(case["pws"]))
+            for oi, pw in enumerate(case["pws"]):
+                m = ("expval", pw)
+                fv = np.array([row[oi] for row in fvals[ji]])
+                if len(gs) == 1:
+                    g_ = gs[0]
+                    if orders == [1]:
+                        exp = sum(g_["mult"] * deriv.grad(m, stt, case["n"], k) for k in g_["pos"])
+                    else:
+                        exp = sum(g_["mult"] ** 2 * deriv.hess(m, stt, case["n"], j, k) for j in g_["pos"] for k in g_["pos"])
                 else:
-                    exp = sum(g_["mult"] ** 2 * deriv.hess(m, stt, case["n"], j, k) for j in g_["pos"] for k in g_["pos"])
-            else:
-                exp = sum(gs[0]["mult"] * gs[1]["mult"] * deriv.hess(m, stt, case["n"], j, k) for j in gs[0]["pos"] for k in gs[1]["pos"])
-            got = float(np.dot(arr[:, 0], np.array(fvals[ji])))
-            ctx.inc("replay_rules_applied_to_exact_values")
-            ctx.inc("replay_exact_function_values", len(rows))
-            tag = f"replay:{case['kind']}:n={orders}"
-            if abs(got - exp) > TOL_REPLAY * max(1.0, float(np.sum(np.abs(arr[:, 0])))):
-                ctx.violate(f"replay:{case['kind']}:order={orders}:rule-differs-from-derivative",
-                            f"rule applied to the exact values gives {got!r}, exact derivative {exp!r}; circuit {[(g['g'], g['w'], g['p']) for g in case['ops']]} "
-                            f"observable {case['pw']} groups {[(g_['pos'], g_['mult'], g_['x']) for g_ in gs]} lattice 4pi/{1 << M}; rule {np.round(arr, 6).tolist()[:8]}",
-                            dict(replay, case={k: v for k, v in case.items()}))
-            else:
-                if abs(exp) > 1e-6:
-                    ctx.nontrivial.add((tag, ji, M))
+                    exp = sum(gs[0]["mult"] * gs[1]["mult"] * deriv.hess(m, stt, case["n"], j, k) for j in gs[0]["pos"] for k in gs[1]["pos"])
+                got = float(np.dot(arr[:, 0], fv))
+                ctx.inc("replay_rules_applied_to_exact_values")
+                tag = f"replay:{case['kind']}:n={orders}"
+                if abs(got - exp) > TOL_REPLAY * size:
+                    ctx.violate(f"replay:{case['kind']}:order={orders}:rule-differs-from-derivative",
+                                f"rule applied to the exact values gives {got!r}, exact derivative {exp!r}; circuit {[(g['g'], g['w'], g['p']) for g in case['ops']]} "
+                                f"observable {pw} groups {[(g_['pos'], g_['mult'], g_['x']) for g_ in gs]} lattice 4pi/{1 << M}; rule {np.round(arr, 6).tolist()[:8]}",
+                                dict(replay, case={k: v for k, v in case.items()}, observable=pw))
+                elif abs(exp) > 1e-6:
+                    ctx.nontrivial.add((tag, ji, oi, M))
                     ctx.inc("replay_nontrivial")
-                    if len(ctx.replay_samples) < 2 and len(arr) >= 4:
+                    if len(ctx.replay_samples) < 2 and len(arr) >= 4 and all(s_["kind"] != case["kind"] for s_ in ctx.replay_samples):
                         ctx.replay_samples.append({"kind": case["kind"], "orders": orders, "gates": [(g["g"], g["w"], g["p"]) for g in case["ops"]],
-                                                   "observable": case["pw"], "rule_terms": len(arr), "exact_derivative": round(float(exp), 10),
+                                                   "observable": pw, "rule_terms": len(arr), "exact_derivative": round(float(exp), 10),
                                                    "rule_of_exact_values": round(got, 10)})
-            # negative control: one corrupted coefficient must be noticed whenever the corrupted term matters
-            bad = arr[:, 0].copy()
-            bad[0] += 0.01
-            if abs(fvals[ji][0]) > 1e-3:
-                if abs(float(np.dot(bad, np.array(fvals[ji]))) - exp) <= TOL_REPLAY * max(1.0, float(np.sum(np.abs(arr[:, 0])))) and abs(got - exp) <= 1e-8:
-                    raise lib.MachineryError("replay negative control accepted")
-                ncorrupt += 1
+                # negative control: one corrupted coefficient must be noticed whenever the corrupted term matters
+                bad = arr[:, 0].copy()
+                bad[0] += 0.01
+                if abs(fv[0]) > 1e-3 and abs(got - exp) <= TOL_REPLAY * size:
+                    if abs(float(np.dot(bad, fv)) - exp) <= TOL_REPLAY * size:
+                        raise lib.MachineryError("replay negative control accepted")
+                    ncorrupt += 1
         ctx.inc("negative_controls_rejected", min(ncorrupt, 3))
     return stats
 
@@ -627,6 +636,9 @@ def run(tier, seed):
     numeric_part(ctx, tier, rng)
     st2 = replay_part(ctx, tier, rng, user_det)
     c = ctx.counts
+    if __import__("os").environ.get("VERIF_DEBUG"):
+        for v in ctx.viol:
+            print("DEBUG", v.key, "|", v.detail[:200])
     if c.get("lattice_rules_with_exact_phases", 0) < 50 or c.get("higher_order_rules_exact", 0) < 20 or c.get("replay_nontrivial", 0) < 8:
         raise lib.MachineryError(f"vacuity: {c}")
     if c.get("negative_controls_rejected", 0) < 6:
